@@ -118,13 +118,13 @@ void nni_cv_init(nni_cv *cv, nni_mtx *m) { (void) cv; (void) m; }
 void nni_cv_fini(nni_cv *cv) { (void) cv; }
 void nni_cv_wake(nni_cv *cv)
 {
-	if (cv == g_eq_cv) {
+	if (VP_SOCK_LK_HELD) {
+		/* a socket's close cv: protected by the global socket lock */
+		g_close_wakes++;
+	} else {
+		__CPROVER_assert(cv == g_eq_cv, "cv: the expire queue's condition variable");
 		__CPROVER_assert(VP_EQ_LOCKED, "cv wake under the expire lock");
 		g_cv_wake++;
-	} else {
-		/* a socket's close cv: protected by the global socket lock */
-		__CPROVER_assert(VP_SOCK_LK_HELD, "close cv woken under the global socket lock");
-		g_close_wakes++;
 	}
 }
 void nni_cv_wake1(nni_cv *cv) { nni_cv_wake(cv); }
